@@ -4719,6 +4719,21 @@ impl BytecodeVM {
                 })
             }
 
+            Op::AdoptSuperResult { src } => {
+                if let JsValue::Object(made) = self.get_reg(src).clone()
+                    && let JsValue::Object(this_obj) = self.this_value.clone()
+                    && made.id() != this_obj.id()
+                {
+                    // The instance is the object the parent made; it is an instance of the
+                    // class being constructed
+                    let proto = this_obj.borrow().prototype.clone();
+                    made.borrow_mut().prototype = proto;
+                    self.register_guard.guard(made.cheap_clone());
+                    self.this_value = JsValue::Object(made);
+                }
+                Ok(OpResult::Continue)
+            }
+
             Op::SuperGet { dst, key } => {
                 let key_val = self.get_reg(key);
                 let super_target = self.get_super_target(interp)?;
